@@ -137,7 +137,7 @@ class MergeExec:
         if m:
             a = self.operand(st, m.group(1), fn)
             return z3.Not(a) if z3.is_expr(a) else (not a)
-        m = re.match(r'^(Eq|Ne|BitAnd|BitOr)\((.*)\)$', rv)
+        m = re.match(r'^(Eq|Ne|Lt|Le|Gt|Ge|BitAnd|BitOr)\((.*)\)$', rv)
         if m:
             a, b = [self.operand(st, x, fn) for x in split_top(m.group(2))]
             return self.I.binop(m.group(1), a, b)
@@ -166,6 +166,21 @@ class MergeExec:
             if meth == 'is_empty': return a == 0
             if meth == 'is_subset': return (a & ~b) == 0
         if trait == 'Clone': return val(args[0])
+        if '_impl_graph_colored_vertices' in f and name in ('approx_cardinality', 'exact_cardinality'):
+            x = val(args[0]); tot = z3.BitVecVal(0, 16)
+            for i in range(M.W): tot = tot + z3.ZeroExt(15, z3.Extract(i, i, x))
+            return tot
+        if '_impl_graph_colored_vertices' in f and name == 'as_bdd': return args[0]
+        if '_impl_bdd::' in f:
+            a = val(args[0])
+            if name == 'and': return a & val(args[1])
+            if name == 'or': return a | val(args[1])
+            if name == 'xor': return a ^ val(args[1])
+            if name == 'iff': return ~(a ^ val(args[1]))
+            if name == 'not': return ~a
+            if name == 'is_false': return a == 0
+        if '_impl_graph_colored_vertices' in f and name == 'new': return val(args[0])
+        if '_impl_symbolic_async_graph' in f and name == 'symbolic_context': return VRef(None)
         if trait == 'PartialEq' and meth in ('eq', 'ne'):
             a, b = val(args[0]), val(args[1])
             r = (a == b)
